@@ -65,11 +65,12 @@ Val(p, fr, a, x) == CASE p = "grid" -> 12300 + 100 * (13 * a + 7 * x + 31 * fr)
                                        ELSE 500000 + 1000 * (a + x) + 700 * fr
                       [] p = "over" -> IF a = 0 THEN (IF x = 0 THEN 100005000 ELSE IF x = 1 THEN -10005000 ELSE 123456) + 1000 * fr  \* 10000.5 A, -1000.5 A
                                        ELSE 30000 + 1000 * (a + x) + 700 * fr
-CellKinds == {"none", "ortho", "tric", "vary"}
+CellKinds == {"none", "ortho", "tric", "vary", "mixed"}     \* mixed: first frame rectangular, later frames triclinic
 CellOf(c, fr) == CASE c = "none" -> <<>>
                    [] c = "ortho" -> <<310000, 320000, 330000, 90, 90, 90>>
                    [] c = "tric" -> <<310000, 320000, 330000, 80, 95, 100>>
                    [] c = "vary" -> <<310000 + 10000 * fr, 320000 + 20000 * fr, 330000, 85 + fr, 95, 100 - fr>>
+                   [] c = "mixed" -> IF fr = 0 THEN <<310000, 320000, 330000, 90, 90, 90>> ELSE <<310000, 320000 + 10000 * fr, 330000, 80, 95 + fr, 100>>
 TimeKinds == {"default", "offset", "nonuniform"}
 TimeOf(t, fr) == CASE t = "default" -> 1000 * fr [] t = "offset" -> 2000 + 500 * fr [] t = "nonuniform" -> (IF fr = 0 THEN 250 ELSE IF fr = 1 THEN 1000 ELSE 7250 + 125 * fr)
 
@@ -77,7 +78,7 @@ TimeOf(t, fr) == CASE t = "default" -> 1000 * fr [] t = "offset" -> 2000 + 500 *
 \* "ok": saving and loading must succeed;  "either": saving (or loading) may fail -- the format cannot hold the input --
 \* but if both succeed every expectation below holds (nothing is dropped or altered silently)
 SaveOutcome(k, opt, na, nf, p, c) ==
-   CASE k = "mdcrd" /\ c \in {"tric", "vary"} -> "either"
+   CASE k = "mdcrd" /\ c \in {"tric", "vary", "mixed"} -> "either"
      [] k \in {"mdcrd", "rst7"} /\ \E fr \in 0..nf-1, a \in 0..na-1, x \in 0..2 : ~Fits(k, opt, na, Val(p, fr, a, x)) -> "either"
      [] NeedsCell(k) /\ c = "none" -> "either"
      [] k = "pdb" /\ opt \div 2 = 1 /\ nf > 1 -> "either"      \* header=False drops the MODEL/ENDMDL records that delimit the frames
@@ -85,7 +86,7 @@ SaveOutcome(k, opt, na, nf, p, c) ==
      [] OTHER -> "ok"
 CellExpect(k, c) == CASE c = "none" -> "absent"
                       [] CellStored(k) = "none" -> "absent"
-                      [] CellStored(k) = "first" /\ c = "vary" -> "first"      \* a single CRYST1 record: later frames cannot be stored
+                      [] CellStored(k) = "first" /\ c \in {"vary", "mixed"} -> "first"      \* a single CRYST1 record: later frames cannot be stored
                       [] OTHER -> "kept"
 
 \* ---- coherence of the table (checked for every value of the pattern domain) ----------------------------------------
